@@ -520,7 +520,15 @@ pub fn c17(args: &Args, reg: &[TypeEntry], log: &mut Log) {
                     // one step above the root (the `..` that would pop the root itself), two, or many
                     let depth = std::env::current_dir().map(|d| d.components().count().saturating_sub(1)).unwrap_or(8);
                     let n = [depth + 1, depth + 1, depth + 2, 64][rng.below(4)];
-                    faulted_op = Op { ty: op.ty, kind: OpKind::ExportAllTo(format!("{}x", "../".repeat(n))) };
+                    let spelling = if rng.chance(1, 3) {
+                        // the same through an absolute directory: from the scratch root up past `/`, and (as the operating
+                        // system would resolve it, `/..` being `/`) back down into the scratch root
+                        let abs = w.root.to_string_lossy().to_string();
+                        format!("{abs}/{}{}/abv", "../".repeat(n.max(abs.split('/').count())), abs.trim_start_matches('/'))
+                    } else {
+                        format!("{}x", "../".repeat(n))
+                    };
+                    faulted_op = Op { ty: op.ty, kind: OpKind::ExportAllTo(spelling) };
                     target_set.clear();
                 }
                 Obstacle::NotExportable => {
